@@ -312,7 +312,7 @@ func (v *jval) coq() string {
 	case jNum:
 		return "(JNum " + coqBits(v.F) + ")"
 	case jStr:
-		return "(JStr " + vh.CoqHex([]byte(v.S)) + ")"
+		return "(JStr " + cb([]byte(v.S)) + ")"
 	case jArr:
 		xs := []string{}
 		for _, x := range v.Arr {
@@ -322,7 +322,7 @@ func (v *jval) coq() string {
 	default:
 		xs := []string{}
 		for i := range v.Keys {
-			xs = append(xs, "("+vh.CoqHex([]byte(v.Keys[i].S))+", "+v.Vals[i].coq()+")")
+			xs = append(xs, "("+cb([]byte(v.Keys[i].S))+", "+v.Vals[i].coq()+")")
 		}
 		return "(JObj " + vh.CoqList(xs) + ")"
 	}
@@ -387,7 +387,7 @@ func coqIface(v interface{}, floats map[uint64]float64) (string, bool) {
 		}
 		return "(JNum " + coqBits(x) + ")", true
 	case string:
-		return "(JStr " + vh.CoqHex([]byte(x)) + ")", true
+		return "(JStr " + cb([]byte(x)) + ")", true
 	case []interface{}:
 		xs := []string{}
 		ok := true
@@ -408,7 +408,7 @@ func coqIface(v interface{}, floats map[uint64]float64) (string, bool) {
 		for _, k := range ks {
 			s, o := coqIface(x[k], floats)
 			ok = ok && o
-			xs = append(xs, "("+vh.CoqHex([]byte(k))+", "+s+")")
+			xs = append(xs, "("+cb([]byte(k))+", "+s+")")
 		}
 		return "(JObj " + vh.CoqList(xs) + ")", ok
 	}
@@ -446,7 +446,7 @@ func jsonTokens(text string, floats map[uint64]float64) ([]string, error) {
 		case json.Delim:
 			out = append(out, map[json.Delim]string{'{': "JTObjOpen", '}': "JTObjClose", '[': "JTArrOpen", ']': "JTArrClose"}[t])
 		case string:
-			out = append(out, "JTStr "+vh.CoqHex([]byte(t)))
+			out = append(out, "JTStr "+cb([]byte(t)))
 		case float64:
 			floats[math.Float64bits(t)] = t
 			out = append(out, "JTNum "+coqBits(t))
@@ -537,7 +537,7 @@ func runJSON(sum *vh.Summary, cw *vh.CaseWriter, text string, gen *jval, verbose
 			n = nil
 			return
 		}
-		obs.Tree = vh.CoqTree(n)
+		obs.Tree = coqTree(n)
 		obs.JSONify2 = idr.JSONify2(n)
 		ifT = idr.J2NodeToInterface(n, true)
 		ifF = idr.J2NodeToInterface(n, false)
@@ -639,7 +639,7 @@ func runJSON(sum *vh.Summary, cw *vh.CaseWriter, text string, gen *jval, verbose
 		if g, err := strconv.ParseFloat(s, 64); err != nil || math.Float64bits(g) != b {
 			fail("strconv: ParseFloat(FormatFloat(v,'f',-1,64)) != v (assumption float_roundtrip)", s)
 		}
-		tab = append(tab, "("+coqBits(f)+", "+vh.CoqHex([]byte(s))+")")
+		tab = append(tab, "("+coqBits(f)+", "+cb([]byte(s))+")")
 	}
 	val := "None"
 	if gen != nil {
